@@ -55,6 +55,8 @@ def gen(rng, idx, tier, seed):
             spec['sdate'] // 1000 < 2069:
         # whole-hour steps of more than a day
         spec['dhour'] = int(rng.choice([30, 48, 72, 100]))
+    # hand-built source whose NCOLS/NROWS/NLAYS attributes are stale
+    spec['stale_attrs'] = bool(rng.random() < 0.3)
     return spec
 
 
